@@ -251,7 +251,7 @@ func init() {
 		Uses: []Use{
 			{Rule: "TAB-6", Filter: role("tags", "encode", "factory"), Floors: map[string]int{"tags": 2, "encode": 1, "factory-nop": 1}},
 			{Rule: "EFF-4", Filter: role("encode-kept"), Floors: map[string]int{"encode-kept": 2}},
-			{Rule: "PAIR-6", Floors: map[string]int{"encoder": 5}},
+			{Rule: "PAIR-6", Floors: map[string]int{"encoder": 2}},
 			{Rule: "SIB-4", Filter: funcHas("toFormattedNode", "toJSONNode"), Floors: map[string]int{"traversal": 1}},
 			{Rule: "ERR-1", Filter: and(scope("lib"), funcHas("formattedSpreader", "jsonSpreader"))},
 			{Rule: "NIL-4", Filter: funcHas("toFormattedNode", "jsonNode)", "tomlNode)", "yamlNode)", "toJSONNode")},
